@@ -106,6 +106,21 @@ def model_outcomes(exe, pairs):
     return res
 
 
+def robust_lines(cmd, lines):
+    """vlib.run_lines, then the cases lost to ANOTHER case's hang/abort in the same shard are re-run in smaller and
+    smaller shards, so that a CRASH answer is left only on the inputs that themselves hang or abort."""
+    ans = vlib.run_lines(cmd, lines, timeout=300)
+    for shards, tmo in ((64, 60), (256, 25)):
+        idx = [i for i, a in enumerate(ans) if a == "CRASH"]
+        if not idx:
+            break
+        idx = idx[:4096]
+        sub = vlib.run_lines(cmd, [lines[i] for i in idx], shards=min(shards, len(idx)), timeout=tmo)
+        for i, a in zip(idx, sub):
+            ans[i] = a
+    return ans
+
+
 def lib_line(case):
     fam, m = case["family"], case["param"]
     if fam in ("annotated_group", "tcgame_group"):
@@ -225,7 +240,7 @@ def run(chk):
     # ------------------------------------------------------------------ lib-magnitude
     lib_cases = [c for c in modelled if not expensive(c["family"], c["param"], modmap[(c["family"], c["param"])])]
     lines = [lib_line(c) for c in lib_cases]
-    ans = {p: vlib.run_lines([hb[p] + "/limits"], lines, timeout=600) for p in ("debug", "release")}
+    ans = {p: robust_lines([hb[p] + "/limits"], lines) for p in ("debug", "release")}
     dist = {"ok": 0, "error": 0, "panic": 0}
     ndis = 0
     for i, c in enumerate(lib_cases):
